@@ -255,6 +255,16 @@ def mm_units():
         u = Unit(f"mmo_{mname}", "mm", body(call_k), body(call_s), (f"mm.order.{mname} fn ", ""), scope=False)
         u.single = True
         U.append(u)
+        # IN scope: each argument expression is evaluated exactly once (as a function call does), whatever
+        # the order — a macro that re-evaluates the winning expression returns a different value when the
+        # expression has side effects (seeded change C19-3)
+        def body_n(c):
+            c = c.replace("A", "{ log.borrow_mut().push('a'); a }").replace("B", "{ log.borrow_mut().push('b'); b }")
+            return (f"    let log = std::cell::RefCell::new(String::new());\n    let _r: Keyed = {c};\n"
+                    "    let mut v: Vec<char> = log.into_inner().chars().collect(); v.sort(); v.into_iter().collect::<String>()")
+        u2 = Unit(f"mme_{mname}", "mm", body_n(call_k), body_n(call_s), (f"mm.evals.{mname} fn ", ""))
+        u2.single = True
+        U.append(u2)
     return U
 
 
